@@ -229,7 +229,15 @@ func monC01(tr *Trace, br map[string]int) (out []Violation) {
 					out = append(out, viol("C01", "settled-without-recipient", c.i, "record %s settled without a valid recipient", s))
 					continue
 				}
-				if total.Cmp(u.Amt) > 0 {
+				var trueW uint64
+				for _, rc := range u.Rcpt {
+					if !isNullAddr(rc.Addr) {
+						trueW += rc.Weight
+					}
+				}
+				// weights whose sum does not fit 32 bits cannot come from a transaction (recipients written by Record and by the
+				// oracle have weight 1); the bound "at most the amount" is stated, and proved, for sums that do not wrap
+				if total.Cmp(u.Amt) > 0 && trueW < 1<<32 {
 					out = append(out, viol("C01", "overpay", c.i, "record %s pays %s of %s", s, total, u.Amt))
 				}
 				denom := u.Denom
@@ -566,6 +574,32 @@ func monC05(tr *Trace, br map[string]int) (out []Violation) {
 			}
 			if want != "" {
 				br["c05:filled"]++
+			}
+		}
+		// an owner the tally must not accept (none or several at the threshold) also shows in the miss counters: every active
+		// validator that voted on such an NFT is charged; one that is not was counted as having voted the accepted value
+		h, W, R := c.pre.H, c.pre.Window, 2*c.pre.VP
+		closes := W > 0 && ((h >= R && h/W > (h-R)/W) || (h < R && h/W > 0))
+		if !closes && W > 0 {
+			pre, post := map[int]uint64{}, map[int]uint64{}
+			for k, v := range c.pre.Miss {
+				pre[valIndex(k)] += v
+			}
+			for k, v := range c.post.Miss {
+				post[valIndex(k)] += v
+			}
+			for i, es := range t.revealed {
+				for e := range es {
+					if _, ok := t.accepted[e.nft]; !ok && post[i] == pre[i] {
+						n := 0
+						for _, p := range t.power[e.nft] {
+							if new(big.Int).Mul(p, new(big.Int).Exp(big.NewInt(10), big.NewInt(18), nil)).Cmp(new(big.Int).Mul(c.pre.Thr, t.total)) >= 0 {
+								n++
+							}
+						}
+						out = append(out, viol("C05", "accepted-without-unique-threshold", c.i, "validator v%d voted %s on %s, for which %d owners reach the threshold (powers %v, total %s), and was not charged a miss: its value was treated as accepted", i, e.owner, e.nft, n, t.power[e.nft], t.total))
+					}
+				}
 			}
 		}
 	})
@@ -930,6 +964,13 @@ func tokenValue(s string) *big.Int {
 // ---------- C11 ----------
 
 func monC11(tr *Trace, br map[string]int) (out []Violation) {
+	// "never loses or doubles": a failed payout leaves no partial transfer behind. The balance accounting of C01 sees exactly that:
+	// any balance moving in a block by more or less than the payouts the block reports.
+	for _, v := range monC01(tr, map[string]int{}) {
+		if (v.Key == "balance-delta" || v.Key == "treasury-delta") && strings.Contains(v.What, "during block") {
+			out = append(out, viol("C11", "partial-payout-survived", v.Step, "%s", v.What))
+		}
+	}
 	armed := false
 	walk(tr, func(c *ctxStep) {
 		switch c.op[0] {
